@@ -16,6 +16,7 @@ import (
 
 	"github.com/anishathalye/porcupine"
 	"github.com/creachadair/mds/cache"
+	"verif/elem"
 	"verif/vk"
 )
 
@@ -33,6 +34,33 @@ type Workload struct {
 	Spin  int     `json:"spin"`  // busy iterations inside the callbacks (stretches the critical section)
 	Yield int     `json:"yield"` // bit 0: Gosched in the size func, bit 1: in the eviction callback, bit 2: between calls
 	G     [][]WOp `json:"g"`
+	// Elem / KElem: kinds of the values ("" = Val, ptr, string) and of the
+	// keys ("" = int, string, wide); see kinds.go.
+	Elem  string `json:"elem,omitempty"`
+	KElem string `json:"kelem,omitempty"`
+	// Store: "" = cache.LRU(); "user" = a Store of the harness's own handed in
+	// through Config.WithStore (userStore below).
+	Store string `json:"store,omitempty"`
+}
+
+// scale is lenScale when the values are strings sized by their length.
+func (w Workload) scale() int64 {
+	if w.Elem == elem.Str {
+		return lenScale
+	}
+	return 1
+}
+
+// effLimit is the limit the cache is built with.
+func (w Workload) effLimit() int64 { return int64(w.Limit) * w.scale() }
+
+// valFor is the value stored by call i of goroutine g.
+func (w Workload) valFor(g, i int, op WOp) Val {
+	v := Val{ID: 1000*(g+1) + i, Size: int64(op.S) * w.scale()}
+	if w.scale() > 1 && v.Size == 0 {
+		v.ID = noID // the empty string
+	}
+	return v
 }
 
 // HistOp is one completed call with its invocation/response stamps.
@@ -84,44 +112,216 @@ func spin(n int) {
 	}
 }
 
+// ---------------------------------------------------------------------------
+// A user-supplied Store.  cache.Store's documentation: "A Cache will serialize
+// access to the methods of Store, so it is not necessary for the
+// implementation to do so separately".  userStore relies on exactly that: a
+// recency list without any locking, and EVERY method - the read-only looking
+// Check included - writes plain statistics fields.  If the cache lets two calls
+// into the store at once, the race detector sees the unsynchronised writes
+// (raw executions: the store uses no atomics at all there, so nothing orders
+// the calls but the cache's own lock) or the inside counter sees the overlap
+// (stamped executions).
+
+type userStore[K comparable, V any] struct {
+	list []kv[K, V] // least recently used first
+	// statistics, written by every method
+	calls, hits int
+	lastCall    string
+
+	detect  bool // count the calls that are inside (atomics)
+	inside  atomic.Int32
+	overlap atomic.Pointer[string]
+	yield   bool
+	spin    int
+}
+
+func (s *userStore[K, V]) enter(name string) {
+	if s.detect {
+		if n := s.inside.Add(1); n != 1 {
+			m := fmt.Sprintf("%d calls were inside the user-supplied Store at the same time (%s entered while another method was running): the cache did not serialize access to the methods of its Store", n, name)
+			s.overlap.CompareAndSwap(nil, &m)
+		}
+	}
+	s.calls++
+	s.lastCall = name
+	if s.yield {
+		runtime.Gosched()
+	}
+	spin(s.spin)
+}
+
+func (s *userStore[K, V]) leave() {
+	s.calls++
+	if s.detect {
+		s.inside.Add(-1)
+	}
+}
+
+func (s *userStore[K, V]) pos(key K) int {
+	for i, e := range s.list {
+		if e.k == key {
+			return i
+		}
+	}
+	return -1
+}
+
+func (s *userStore[K, V]) Check(key K) (V, bool) {
+	s.enter("Check")
+	defer s.leave()
+	if i := s.pos(key); i >= 0 {
+		s.hits++
+		return s.list[i].v, true
+	}
+	var zero V
+	return zero, false
+}
+
+func (s *userStore[K, V]) Access(key K) (V, bool) {
+	s.enter("Access")
+	defer s.leave()
+	i := s.pos(key)
+	if i < 0 {
+		var zero V
+		return zero, false
+	}
+	s.hits++
+	e := s.list[i]
+	s.list = append(append(s.list[:i:i], s.list[i+1:]...), e)
+	return e.v, true
+}
+
+func (s *userStore[K, V]) Store(key K, val V) {
+	s.enter("Store")
+	defer s.leave()
+	if s.pos(key) >= 0 {
+		panic(fmt.Sprintf("user store: Store of key %v, which is present", key))
+	}
+	s.list = append(s.list, kv[K, V]{key, val})
+}
+
+func (s *userStore[K, V]) Remove(key K) {
+	s.enter("Remove")
+	defer s.leave()
+	if i := s.pos(key); i >= 0 {
+		s.list = append(s.list[:i:i], s.list[i+1:]...)
+	}
+}
+
+func (s *userStore[K, V]) Evict() (K, V) {
+	s.enter("Evict")
+	defer s.leave()
+	if len(s.list) == 0 {
+		panic("user store: Evict on an empty store")
+	}
+	e := s.list[0]
+	s.list = append([]kv[K, V](nil), s.list[1:]...)
+	return e.k, e.v
+}
+
 // execute runs the workload once.  With stamps == true every call is bracketed
 // by reads of one atomic counter (needed for the linearizability check); with
 // stamps == false the goroutines share nothing but the cache, so the race
 // detector sees every unsynchronised access pair.
 func execute(w Workload, stamps bool) (cc ConcCase, deadlock string) {
+	switch w.KElem {
+	case "":
+		return executeK(w, stamps, intKeys())
+	case elem.Str:
+		return executeK(w, stamps, keyKitOf(elem.StrKit()))
+	case elem.Wide:
+		return executeK(w, stamps, keyKitOf(elem.WideKit()))
+	}
+	return ConcCase{W: w}, badKind("key", w.KElem)
+}
+
+func executeK[K comparable](w Workload, stamps bool, kk keyKit[K]) (ConcCase, string) {
+	switch w.Elem {
+	case "":
+		return executeG(w, stamps, kk, structVals())
+	case elem.Ptr:
+		return executeG(w, stamps, kk, cellVals(elem.PtrKit()))
+	case elem.Str:
+		return executeG(w, stamps, kk, stringVals(false))
+	}
+	return ConcCase{W: w}, badKind("value", w.Elem)
+}
+
+// rawRes is what one call returned, in the cache's own types.  It is
+// converted to ints only after all goroutines have finished: the conversion
+// of the ptr kind takes a lock, which would order the goroutines.
+type rawRes[K comparable, V any] struct {
+	val V
+	ev  []kv[K, V]
+}
+
+func executeG[K comparable, V any](w Workload, stamps bool, kk keyKit[K], vt valKit[V]) (cc ConcCase, deadlock string) {
 	cc.W = w
 	cc.Mode = "raw"
 	if stamps {
 		cc.Mode = "stamped"
+	}
+	if usesCells(w.Elem) {
+		elem.ResetPtr()
 	}
 	prev := runtime.GOMAXPROCS(w.Procs)
 	defer runtime.GOMAXPROCS(prev)
 
 	ng := len(w.G)
 	recs := make([][]HistOp, ng)
-	cur := make([]*HistOp, ng) // the call in progress of each goroutine
-	gidOf := map[int64]int{}   // written before the barrier, read-only afterwards
+	raws := make([][]rawRes[K, V], ng)
+	cur := make([]*rawRes[K, V], ng) // the call in progress of each goroutine
+	gidOf := map[int64]int{}         // written before the barrier, read-only afterwards
 	var regMu sync.Mutex
 	var clock atomic.Int64
 
-	cfg := cache.LRU[int, Val]().
-		WithSize(func(v Val) int64 {
+	// keys and values are made before the goroutines start (see rawRes)
+	keys := make([][]K, ng)
+	vals := make([][]V, ng)
+	made := map[int]V{}
+	for g := 0; g < ng; g++ {
+		recs[g] = make([]HistOp, len(w.G[g]))
+		raws[g] = make([]rawRes[K, V], len(w.G[g]))
+		keys[g] = make([]K, len(w.G[g]))
+		vals[g] = make([]V, len(w.G[g]))
+		for i, op := range w.G[g] {
+			keys[g][i] = kk.mk(op.K)
+			if op.Kind == "put" {
+				v := w.valFor(g, i, op)
+				recs[g][i].V = v
+				vals[g][i] = vt.mk(v)
+				made[v.ID] = vals[g][i]
+			}
+		}
+	}
+
+	cfg := cache.LRU[K, V]()
+	var store *userStore[K, V]
+	if w.Store == "user" {
+		store = &userStore[K, V]{detect: stamps, yield: w.Yield&3 != 0, spin: w.Spin}
+		cfg = cache.Config[K, V]{}.WithStore(store)
+	} else if w.Store != "" {
+		return cc, badKind("store", w.Store)
+	}
+	cfg = cfg.
+		WithSize(func(v V) int64 {
 			if w.Yield&1 != 0 {
 				runtime.Gosched()
 			}
 			spin(w.Spin)
-			return v.Size
+			return vt.size(v)
 		}).
-		OnEvict(func(k int, v Val) {
+		OnEvict(func(k K, v V) {
 			if g, ok := gidOf[goid()]; ok && cur[g] != nil {
-				cur[g].Ev = append(cur[g].Ev, pair{k, v})
+				cur[g].ev = append(cur[g].ev, kv[K, V]{k, v})
 			}
 			if w.Yield&2 != 0 {
 				runtime.Gosched()
 			}
 			spin(w.Spin)
 		})
-	c := cache.New(int64(w.Limit), cfg)
+	c := cache.New(w.effLimit(), cfg)
 
 	start := make(chan struct{})
 	var ready, done sync.WaitGroup
@@ -129,7 +329,6 @@ func execute(w Workload, stamps bool) (cc ConcCase, deadlock string) {
 	panics := make([]string, ng)
 	gids := make([]int64, ng)
 	for g := 0; g < ng; g++ {
-		recs[g] = make([]HistOp, len(w.G[g]))
 		ready.Add(1)
 		done.Add(1)
 		go func(g int) {
@@ -151,20 +350,20 @@ func execute(w Workload, stamps bool) (cc ConcCase, deadlock string) {
 			for i, op := range w.G[g] {
 				h := &recs[g][i]
 				h.G, h.I, h.Op = g, i, op
-				cur[g] = h
+				r := &raws[g][i]
+				cur[g] = r
 				if stamps {
 					h.Call = clock.Add(1)
 				}
 				switch op.Kind {
 				case "has":
-					h.Ok = c.Has(op.K)
+					h.Ok = c.Has(keys[g][i])
 				case "get":
-					h.Val, h.Ok = c.Get(op.K)
+					r.val, h.Ok = c.Get(keys[g][i])
 				case "put":
-					h.V = Val{ID: 1000*(g+1) + i, Size: int64(op.S)}
-					h.Ok = c.Put(op.K, h.V)
+					h.Ok = c.Put(keys[g][i], vals[g][i])
 				case "remove":
-					h.Ok = c.Remove(op.K)
+					h.Ok = c.Remove(keys[g][i])
 				case "len":
 					h.N = int64(c.Len())
 				case "size":
@@ -202,7 +401,28 @@ wait:
 			}
 		}
 	}
+	// back to ints; for the kinds with an identity an element that came out
+	// must be the element that went in
+	identity := ""
+	back := func(x V, where string) Val {
+		v := vt.val(x)
+		if m, ok := made[v.ID]; ok && vt.hasID && v.ID != noID && !vt.same(x, m) && identity == "" {
+			identity = fmt.Sprintf("%s: value #%d came back as a different element (a copy / another pointer) than the one handed to Put", where, v.ID)
+		}
+		return v
+	}
+	convert := func(h *HistOp, r *rawRes[K, V], where string) {
+		if h.Op.Kind == "get" && h.Ok {
+			h.Val = back(r.val, where)
+		}
+		for _, e := range r.ev {
+			h.Ev = append(h.Ev, pair{kk.v(e.k), back(e.v, where+", eviction callback")})
+		}
+	}
 	for g := range recs {
+		for i := range recs[g] {
+			convert(&recs[g][i], &raws[g][i], fmt.Sprintf("g%d.%d %s", g, i, recs[g][i].Op.Kind))
+		}
 		cc.Hist = append(cc.Hist, recs[g]...)
 	}
 	for _, p := range panics {
@@ -213,16 +433,23 @@ wait:
 	}
 	// quiescence: sequential observation and final Clear
 	cc.FLen, cc.FSize = c.Len(), c.Size()
-	var fin []pair
-	finRec := &HistOp{}
+	finRec, finRaw := &HistOp{}, &rawRes[K, V]{}
 	regMu.Lock()
 	gidOf[goid()] = 0
 	regMu.Unlock()
-	cur[0] = finRec
+	cur[0] = finRaw
 	c.Clear()
 	cur[0] = nil
-	fin = finRec.Ev
-	cc.Final = fin
+	convert(finRec, finRaw, "final Clear")
+	cc.Final = finRec.Ev
+	if store != nil {
+		if m := store.overlap.Load(); m != nil {
+			return ConcCase{W: w, Mode: cc.Mode}, *m
+		}
+	}
+	if identity != "" {
+		return ConcCase{W: w, Mode: cc.Mode}, identity
+	}
 	return cc, ""
 }
 
@@ -328,12 +555,14 @@ const (
 // checkHistory decides a recorded execution: linearizability against the LRU
 // specification (stamped executions only) and the quiescence accounting.
 func checkHistory(cc ConcCase, timeout time.Duration) (int, string) {
-	limit := int64(cc.W.Limit)
+	limit := cc.W.effLimit()
 	// ---- accounting at quiescence ------------------------------------------
-	stored := map[int]pair{}
+	// Counted per (key, value): every value is stored at most once, except the
+	// empty strings of the string kind, which share noID.
+	stored := map[pair]int{}
 	for _, h := range cc.Hist {
 		if h.Op.Kind == "put" && h.Ok {
-			stored[h.V.ID] = pair{h.Op.K, h.V}
+			stored[pair{h.Op.K, h.V}]++
 		}
 		if h.Op.Kind == "size" && h.N > limit {
 			return vViolation, fmt.Sprintf("g%d.%d observed Size = %d above the limit %d", h.G, h.I, h.N, limit)
@@ -342,16 +571,17 @@ func checkHistory(cc ConcCase, timeout time.Duration) (int, string) {
 			return vViolation, fmt.Sprintf("g%d.%d Put of a value of size %d was refused although the limit is %d", h.G, h.I, h.V.Size, limit)
 		}
 	}
-	seen := map[int]string{}
+	seen := map[pair]int{}
+	seenAt := map[pair]string{}
 	note := func(p pair, where string) string {
-		s, ok := stored[p.V.ID]
-		if !ok || s != p {
+		if stored[p] == 0 {
 			return fmt.Sprintf("the eviction callback reported %v (%s), which no successful Put stored", p, where)
 		}
-		if prev, dup := seen[p.V.ID]; dup {
-			return fmt.Sprintf("the eviction callback reported %v twice (%s and %s)", p, prev, where)
+		if seen[p] >= stored[p] {
+			return fmt.Sprintf("the eviction callback reported %v twice (%s and %s)", p, seenAt[p], where)
 		}
-		seen[p.V.ID] = where
+		seen[p]++
+		seenAt[p] = where
 		return ""
 	}
 	for _, h := range cc.Hist {
@@ -368,18 +598,33 @@ func checkHistory(cc ConcCase, timeout time.Duration) (int, string) {
 		}
 		fsize += p.V.Size
 	}
-	if len(seen) != len(stored) {
-		var missing []int
-		for id := range stored {
-			if _, ok := seen[id]; !ok {
-				missing = append(missing, id)
-			}
+	var missing []int
+	for p, n := range stored {
+		if seen[p] != n {
+			missing = append(missing, p.V.ID)
 		}
+	}
+	if len(missing) > 0 {
 		sort.Ints(missing)
 		return vViolation, fmt.Sprintf("values %v were stored successfully but never reported to the eviction callback, not even by the final Clear", missing)
 	}
 	if cc.FLen != len(cc.Final) || cc.FSize != fsize || fsize > limit {
 		return vViolation, fmt.Sprintf("at quiescence Len=%d Size=%d (limit %d) but the final Clear released %d entries of total size %d", cc.FLen, cc.FSize, limit, len(cc.Final), fsize)
+	}
+	if len(cc.W.G) == 1 && len(cc.Hist) == len(cc.W.G[0]) {
+		// One goroutine: the program order is the only order (stamped or not),
+		// so the specification is stepped directly and the first call it does
+		// not explain is named.
+		m := specModel(limit)
+		state := m.Init()
+		for _, h := range cc.Hist {
+			ok, next := m.Step(state, h, h)
+			if !ok {
+				return vViolation, fmt.Sprintf("sequential workload (one goroutine, no overlap): call %s is not what the reference LRU cache of C08 answers after the calls before it (recency list before the call, least recently used first, as key:id:size: %q)", m.DescribeOperation(h, h), state)
+			}
+			state = next
+		}
+		return vOK, ""
 	}
 	if cc.Mode != "stamped" {
 		return vOK, ""
@@ -471,6 +716,9 @@ type BigClearCase struct {
 	Readers int `json:"readers"`
 	Procs   int `json:"procs"`
 	Spin    int `json:"spin"`
+	// kinds of the values ("" = Val, ptr, string) and keys ("" = int, string, wide)
+	Elem  string `json:"elem,omitempty"`
+	KElem string `json:"kelem,omitempty"`
 }
 
 func runBigClear(c BigClearCase, o *vk.Obs) string {
@@ -487,22 +735,53 @@ func runBigClear(c BigClearCase, o *vk.Obs) string {
 }
 
 func executeBigClear(c BigClearCase) (msg string, overlapped bool) {
+	switch c.KElem {
+	case "":
+		return executeBigClearK(c, intKeys())
+	case elem.Str:
+		return executeBigClearK(c, keyKitOf(elem.StrKit()))
+	case elem.Wide:
+		return executeBigClearK(c, keyKitOf(elem.WideKit()))
+	}
+	return badKind("key", c.KElem), false
+}
+
+func executeBigClearK[K comparable](c BigClearCase, kk keyKit[K]) (string, bool) {
+	switch c.Elem {
+	case "":
+		return executeBigClearG(c, kk, structVals())
+	case elem.Ptr:
+		return executeBigClearG(c, kk, cellVals(elem.PtrKit()))
+	case elem.Str:
+		return executeBigClearG(c, kk, stringVals(true)) // the size function below counts entries
+	}
+	return badKind("value", c.Elem), false
+}
+
+func executeBigClearG[K comparable, V any](c BigClearCase, kk keyKit[K], vt valKit[V]) (msg string, overlapped bool) {
+	if usesCells(c.Elem) {
+		elem.ResetPtr()
+	}
 	prev := runtime.GOMAXPROCS(c.Procs)
 	defer runtime.GOMAXPROCS(prev)
 	var mu sync.Mutex
 	reported := map[int]int{}
-	cfg := cache.LRU[int, Val]().
-		WithSize(func(v Val) int64 { spin(c.Spin); return 1 }).
-		OnEvict(func(k int, v Val) {
+	cfg := cache.LRU[K, V]().
+		WithSize(func(v V) int64 { spin(c.Spin); return 1 }).
+		OnEvict(func(k K, v V) {
 			mu.Lock()
-			reported[v.ID]++
+			reported[vt.val(v).ID]++
 			mu.Unlock()
 			spin(c.Spin)
 			runtime.Gosched()
 		})
 	cc := cache.New(int64(c.N), cfg)
+	keys := make([]K, c.N) // made up front: the readers only look keys up
+	for k := range keys {
+		keys[k] = kk.mk(k)
+	}
 	for k := 0; k < c.N; k++ {
-		if !cc.Put(k, Val{ID: k + 1, Size: 1}) {
+		if !cc.Put(keys[k], vt.mk(Val{ID: k + 1, Size: 1})) {
 			return fmt.Sprintf("Put(%d) into a cache of limit %d with %d entries was refused", k, c.N, k), false
 		}
 	}
@@ -541,11 +820,11 @@ func executeBigClear(c BigClearCase) (msg string, overlapped bool) {
 					what, isBefore, isAfter = fmt.Sprintf("Size() = %d", n), n == int64(c.N), n == 0
 				case 2:
 					k := (i * 7) % c.N
-					ok := cc.Has(k)
+					ok := cc.Has(keys[k])
 					what, isBefore, isAfter = fmt.Sprintf("Has(%d) = %v", k, ok), ok, !ok
 				default:
 					k := c.N - 1 - (i*3)%c.N
-					ok := cc.Has(k)
+					ok := cc.Has(keys[k])
 					what, isBefore, isAfter = fmt.Sprintf("Has(%d) = %v", k, ok), ok, !ok
 				}
 				switch {
